@@ -1,5 +1,3 @@
-//go:build !vsreal
-
 // Package c01: per-stream delivery is in order, exactly once, uncorrupted and
 // complete, in both directions, under all schedules up to the bound.
 package c01
